@@ -389,6 +389,9 @@ def placements(root, n):
         out.append(('everything', {'all': True}))
         out.append(('everything-swapped', {'all': True, 'swap_samepos': True}))
         out.append(('everything-twice', {'all': True, 'interchanges': 2, 'groups': 2, 'sets': 2}))
+        # an interchange acknowledgement (TA1) between the ISA and the first group
+        out.append(('after-ta1', {'ta1': True}))
+        out.append(('after-ta1-twice', {'ta1': True, 'interchanges': 2, 'groups': 2}))
         return out
     out.append(('minimal', {}))
     if not usable(n):
@@ -448,7 +451,8 @@ def jsonable(plan):
 
 QUICK_PLANS = [('min', {}), ('all-filled', {'all': True, 'fill_all': True}), ('all', {'all': True}), ('two-sets', {'sets': 2}),
                ('two-groups', {'groups': 2}), ('two-interchanges', {'interchanges': 2}), ('lastcode', {'code': 'last'}),
-               ('all-twice', {'all': True, 'sets': 2, 'groups': 2}), ('all-swapped', {'all': True, 'swap_samepos': True})]
+               ('all-twice', {'all': True, 'sets': 2, 'groups': 2}), ('all-swapped', {'all': True, 'swap_samepos': True}),
+               ('ta1-two-groups', {'ta1': True, 'groups': 2, 'interchanges': 2})]
 
 
 def work_docs(shard):
@@ -611,11 +615,11 @@ def run(R):
                 'loops': 'every loop that begins with a segment, envelope loops included' if R.thorough else
                          'per map one loop per children-shape signature (usage, repeat, children kinds/usages/repeats, sibling situation, parent repeat) + all envelope loops',
                 'placements': 'minimal(absent unless required), once, with-children, with-descendants, then-sibling, twice, twice-with-children, '
-                              'in-repeated-parent, twice-in-repeated-parent, all-loops-of-this-id, everything; envelope loops: once, twice, in/twice-in repeated parent, everything(-twice)',
+                              'in-repeated-parent, twice-in-repeated-parent, all-loops-of-this-id, everything; envelope loops: once, twice, in/twice-in repeated parent, everything(-twice), after a TA1 (x1, x2 interchanges x 2 groups)',
                 'envelopes': 'each placement alone, with 2 sets, with 2 groups',
                 'loop ids per document': 'the id of the placed loop, of %s, and None' % ('every enclosing loop' if R.thorough else 'its nearest enclosing loop'),
                 'corpus family': ('every single deviation from the minimal document (gen.plans_d1) of every map' if R.thorough else
-                                  '8 shapes per map (min, all, all-filled, last codes, 2 sets / groups / interchanges, all x 2 sets x 2 groups)')
+                                  '10 shapes per map (min, all, all-filled, last codes, 2 sets / groups / interchanges, all x 2 sets x 2 groups, all swapped, TA1 + 2 interchanges x 2 groups)')
                                  + ', each read with every loop id occurring in it, one anchored loop id that does not occur, and None'}
     R.assumptions = ['structural validity is decided by the independent grammar: only documents whose reference parse (gen.selfcheck) reproduces the generating nodes are used; others are counted',
                      'layout is one segment per line with ~ * : delimiters (delimiter and layout independence is C12)',
